@@ -4,7 +4,7 @@ from vlib import common as K, e2, kernel
 from corpus import actions as A
 
 PID = "C02"
-FUNCTIONS = ["generated __reduce / __reduceN / __pop_VariantK", "generated __actionN wrappers (inlining, lookaround plumbing)",
+FUNCTIONS = ["generated __reduce / __reduceN / __pop_VariantK", "generated __token_to_integer / __token_to_symbol (extern tokens with 0..12 captures, tuple and struct patterns, shared variants)", "generated __actionN wrappers (inlining, lookaround plumbing)",
              "user action call sites as emitted by lalrpop::build::action + lr1::codegen::parse_table::emit_reduce_action",
              "generated __simulate_reduce, __goto (consistency with the reduce step)"]
 ASSUME = [
@@ -57,9 +57,9 @@ def whole_parse_stage(pid, tier, grammars, kinds, maxlen_quick=5, maxlen_thoroug
     return n, out
 
 
-def run_e2(pid, tier, assumptions, grammars=None, relevant=None, whole=None):
+def run_e2(pid, tier, assumptions, grammars=None, relevant=None, whole=None, tts=False):
     gs = [g for g in A.action_grammars() if grammars is None or g.name in grammars]
-    crate, hs, notes = e2.prepare(gs, "e2_" + pid.lower())
+    crate, hs, notes = e2.prepare(gs, "e2_" + pid.lower(), tts=tts)
     names = [h for h, _, _ in hs]
     desc = {h: d + ("" if kind == "spec" else " [no specification: panic-freedom only]") for h, d, kind in hs}
 
@@ -87,7 +87,7 @@ def run_e2(pid, tier, assumptions, grammars=None, relevant=None, whole=None):
             path = K.save_replay(pid, key.replace(":", "_"), {"case.json": json.dumps(data, indent=1)})
             print("VIOLATION property=%s replay=%s" % (pid, path))
             print("  " + text)
-        evp = os.path.join(K.VERIF, "evidence", pid + ".json")
+        evp = K.evidence_path(pid)
         ev = json.load(open(evp))
         ev["coverage"]["traces_validated_against_impl"] = ev["coverage"].get("traces_validated_against_impl", 0) + ntr
         ev["coverage"]["whole_parse_validation"] = {"grammars": list(whole[0]), "runs": ntr, "mismatch_kinds_counted": list(whole[1]),
@@ -104,7 +104,7 @@ def run(tier):
     # values, argument order, exactly-once, default actions, bindings; locations are C06's, errors C17's
     return run_e2(PID, tier, ASSUME, grammars=("act_plain", "act_inline", "act_fallible", "act_loc"),
                   relevant=lambda c: not any(x in c for x in LOCATION),
-                  whole=(("act_plain", "act_fallible", "act_reps"), ("order", "args", "result")))
+                  whole=(("act_plain", "act_fallible", "act_reps"), ("order", "args", "result")), tts=True)
 
 
 def replay(path):
@@ -116,7 +116,7 @@ def run_both(pid, tier, first, second):
     import json, os, time
     t0 = time.time()
     rc1 = first()
-    evp = os.path.join(K.VERIF, "evidence", pid + ".json")
+    evp = K.evidence_path(pid)
     ev1 = json.load(open(evp))
     rc2 = second()
     ev2 = json.load(open(evp))
